@@ -228,7 +228,7 @@ Lemma mul_diag_diag_sv rho d0 d p :
   mul_diag_diag d0 d = Ok p -> length d0 = length d ->
   sv_eq (sem rho (MDiag p)) (prod_sv (sem rho (MDiag d0)) (sem rho (MDiag d))).
 Proof.
-  intros H L. unfold mul_diag_diag in H. apply zipc0_spec in H; [|assumption]. destruct H as [Lp Hn].
+  intros H L. unfold mul_diag_diag in H. destruct (Nat.eqb _ _) eqn:EG in H; cbn [negb] in H; [|discriminate]. apply zipc0_spec in H; [|assumption]. destruct H as [Lp Hn].
   split.
   - cbn [prod_sv fst]. rewrite !sem_shape, !shp_MDiag. unfold prod_shape. cbn [fst snd].
     rewrite L, Nat.eqb_refl, Lp. congruence.
@@ -247,7 +247,7 @@ Lemma mul_dense_diag_sv rho m n v d r :
   exists p, r = (m, n, p) /\ length p = m * n /\
     sv_eq (sem rho (MDense m n p)) (prod_sv (sem rho (MDense m n v)) (sem rho (MDiag d))).
 Proof.
-  intros H Lv Ld. unfold mul_dense_diag in H.
+  intros H Lv Ld. unfold mul_dense_diag in H. destruct (Nat.eqb _ _) eqn:EG in H; cbn [negb] in H; [|discriminate].
   destruct (tab2 m n _) as [p| | |] eqn:E; cbn [bind] in H; try discriminate.
   inversion H; subst r. exists p. split; [reflexivity|].
   apply (tab2_spec _ _ _ _ e0) in E. destruct E as [Lp Hn]. split; [assumption|].
@@ -269,7 +269,7 @@ Lemma mul_diag_dense_sv rho d m n v r :
   exists p, r = (m, n, p) /\ length p = m * n /\
     sv_eq (sem rho (MDense m n p)) (prod_sv (sem rho (MDiag d)) (sem rho (MDense m n v))).
 Proof.
-  intros H Lv Ld. unfold mul_diag_dense in H.
+  intros H Lv Ld. unfold mul_diag_dense in H. destruct (Nat.eqb _ _) eqn:EG in H; cbn [negb] in H; [|discriminate].
   destruct (tab2 m n _) as [p| | |] eqn:E; cbn [bind] in H; try discriminate.
   inversion H; subst r. exists p. split; [reflexivity|].
   apply (tab2_spec _ _ _ _ e0) in E. destruct E as [Lp Hn]. split; [assumption|].
@@ -319,7 +319,7 @@ Lemma mul_dense_dense_sv rho am an av bm bn bv r :
   exists p, r = (am, bn, p) /\ length p = am * bn /\
     sv_eq (sem rho (MDense am bn p)) (prod_sv (sem rho (MDense am an av)) (sem rho (MDense bm bn bv))).
 Proof.
-  intros H La Lb Hab. subst bm. unfold mul_dense_dense in H.
+  intros H La Lb Hab. subst bm. unfold mul_dense_dense in H. destruct (Nat.eqb _ _) eqn:EG in H; cbn [negb] in H; [|discriminate].
   destruct (tab2 am bn _) as [p| | |] eqn:E; cbn [bind] in H; try discriminate.
   inversion H; subst r. exists p. split; [reflexivity|].
   apply (tab2_spec _ _ _ _ e0) in E. destruct E as [Lp Hn]. split; [assumption|].
